@@ -66,3 +66,119 @@ pub fn call_to_value(c: &Call, s: &Shape) -> Result<Value, String> {
         _ => return Err(format!("{} does not fit shape {:?}", kind(c), s.kind_name())),
     })
 }
+
+// ---------------------------------------------------------------------------------------
+// call tree -> bytes, straight from the wire-format specification (no schema, no shape)
+// ---------------------------------------------------------------------------------------
+
+fn wire_varint(out: &mut Vec<u8>, mut v: u128) {
+    loop {
+        let g = (v & 0x7F) as u8;
+        v >>= 7;
+        if v == 0 {
+            out.push(g);
+            return;
+        }
+        out.push(g | 0x80);
+    }
+}
+
+fn wire_zigzag(out: &mut Vec<u8>, v: i128, bits: u32) {
+    // (n << 1) ^ (n >> (bits-1)) evaluated in `bits`-wide two's complement
+    let mask: u128 = if bits == 128 { u128::MAX } else { (1u128 << bits) - 1 };
+    let u = (v as u128) & mask;
+    let z = if v < 0 { !(u << 1) & mask } else { (u << 1) & mask };
+    wire_varint(out, z);
+}
+
+/// The bytes the published wire format prescribes for a sequence of serde data-model items.
+/// `Err` for sequences / maps of unknown length (the format refuses them).
+pub fn wire_of_call(c: &Call, out: &mut Vec<u8>) -> Result<(), String> {
+    let list = |items: &[Call], out: &mut Vec<u8>| -> Result<(), String> {
+        for i in items {
+            wire_of_call(i, out)?;
+        }
+        Ok(())
+    };
+    match c {
+        Call::Bool(b) => out.push(*b as u8),
+        Call::I8(v) => out.push(*v as u8),
+        Call::U8(v) => out.push(*v),
+        Call::I16(v) => wire_zigzag(out, *v as i128, 16),
+        Call::I32(v) => wire_zigzag(out, *v as i128, 32),
+        Call::I64(v) => wire_zigzag(out, *v as i128, 64),
+        Call::I128(v) => wire_zigzag(out, *v, 128),
+        Call::U16(v) => wire_varint(out, *v as u128),
+        Call::U32(v) => wire_varint(out, *v as u128),
+        Call::U64(v) => wire_varint(out, *v as u128),
+        Call::U128(v) => wire_varint(out, *v),
+        Call::F32(b) => out.extend_from_slice(&[(*b) as u8, (*b >> 8) as u8, (*b >> 16) as u8, (*b >> 24) as u8]),
+        Call::F64(b) => {
+            for k in 0..8 {
+                out.push((*b >> (8 * k)) as u8);
+            }
+        }
+        Call::Char(ch) => {
+            let mut buf = [0u8; 4];
+            let s = ch.encode_utf8(&mut buf);
+            wire_varint(out, s.len() as u128);
+            out.extend_from_slice(s.as_bytes());
+        }
+        Call::Str(s) => {
+            wire_varint(out, s.len() as u128);
+            out.extend_from_slice(s.as_bytes());
+        }
+        Call::Bytes(b) => {
+            wire_varint(out, b.len() as u128);
+            out.extend_from_slice(b);
+        }
+        Call::None => out.push(0),
+        Call::Some(i) => {
+            out.push(1);
+            wire_of_call(i, out)?;
+        }
+        Call::Unit | Call::UnitStruct(_) => {}
+        Call::NewtypeStruct(_, i) => wire_of_call(i, out)?,
+        Call::Seq(len, items) => {
+            let n = len.ok_or("sequence of unknown length")?;
+            if n != items.len() {
+                return Err(format!("sequence announced {} elements and wrote {}", n, items.len()));
+            }
+            wire_varint(out, n as u128);
+            list(items, out)?;
+        }
+        Call::Tuple(_, items) | Call::TupleStruct(_, _, items) => list(items, out)?,
+        Call::Map(len, pairs) => {
+            let n = len.ok_or("map of unknown length")?;
+            if n != pairs.len() {
+                return Err(format!("map announced {} entries and wrote {}", n, pairs.len()));
+            }
+            wire_varint(out, n as u128);
+            for (k, v) in pairs {
+                wire_of_call(k, out)?;
+                wire_of_call(v, out)?;
+            }
+        }
+        Call::Struct(_, _, fields) => {
+            for (_, f) in fields {
+                wire_of_call(f, out)?;
+            }
+        }
+        Call::UnitVariant(_, idx, _) => wire_varint(out, *idx as u128),
+        Call::NewtypeVariant(_, idx, _, i) => {
+            wire_varint(out, *idx as u128);
+            wire_of_call(i, out)?;
+        }
+        Call::TupleVariant(_, idx, _, _, items) => {
+            wire_varint(out, *idx as u128);
+            list(items, out)?;
+        }
+        Call::StructVariant(_, idx, _, _, fields) => {
+            wire_varint(out, *idx as u128);
+            for (_, f) in fields {
+                wire_of_call(f, out)?;
+            }
+        }
+    }
+    Ok(())
+}
